@@ -15,8 +15,8 @@ import (
 	"github.com/zmap/zcrypto/x509/pkix"
 )
 
-func c13Sig(key *x509.Certificate, signed []byte) bool {
-	return vr.UFBool("sig", key.Raw, signed)
+func c13Sig(key *x509.Certificate, signed, sig []byte) bool {
+	return vr.UFBool("sig", key.Raw, signed, sig)
 }
 
 // C13: ParseResponse / ParseResponseForCert after the DER layer. Both asn1.Unmarshal
@@ -27,7 +27,7 @@ func VerifH_C13_parse_response_binds_to_issuer() {
 	issuer := &x509.Certificate{Raw: []byte{1}}
 	embedded := &x509.Certificate{Raw: []byte{2}, RawTBSCertificate: []byte{0xE2}, Signature: []byte{0x51}}
 	vr.Stub("(*github.com/zmap/zcrypto/x509.Certificate).CheckSignature", func(c *x509.Certificate, algo x509.SignatureAlgorithm, signed, sig []byte) error {
-		if c13Sig(c, signed) {
+		if c13Sig(c, signed, sig) {
 			return nil
 		}
 		return errors.New("model: signature does not verify")
@@ -56,7 +56,15 @@ func VerifH_C13_parse_response_binds_to_issuer() {
 	var singles []single
 	var br basicResponse
 	br.TBSResponseData.Raw = tbs
-	br.Signature = asn1.BitString{Bytes: vr.Bytes("sig", 1), BitLength: 8}
+	// the signature BIT STRING may declare unused bits; the signature value is the
+	// bit string read as an integer, i.e. shifted right by that many bits
+	sigBytes := vr.Bytes("sig", 2)
+	unused := vr.Int("sigUnusedBits", 0, 7)
+	vr.Assume(sigBytes[1]&byte(1<<uint(unused)-1) == 0) // DER: unused bits are zero
+	br.Signature = asn1.BitString{Bytes: sigBytes, BitLength: 16 - unused}
+	sigVal := uint16(sigBytes[0])<<8 | uint16(sigBytes[1])
+	sigVal >>= uint(unused)
+	wantSig := []byte{byte(sigVal >> 8), byte(sigVal)}
 	br.TBSResponseData.ProducedAt = time.Unix(int64(vr.U8("producedAt")), 0)
 	tag := vr.Int("responderTag", 0, 2)
 	br.TBSResponseData.RawResponderID = asn1.RawValue{Tag: tag, Bytes: vr.Bytes("responder", 1)}
@@ -153,12 +161,12 @@ func VerifH_C13_parse_response_binds_to_issuer() {
 	vr.Assert(bytes.Equal(resp.TBSResponseData, tbs) && (tag == 1 || tag == 2) && nameOK, "TBS bytes copied; responder id well-formed")
 	// signature binding
 	if hasEmbedded {
-		vr.Assert(embParses && resp.Certificate == embedded && c13Sig(embedded, tbs), "an embedded responder certificate must have signed the response")
+		vr.Assert(embParses && resp.Certificate == embedded && c13Sig(embedded, tbs, wantSig), "an embedded responder certificate must have signed the response")
 		if withIssuer {
-			vr.Assert(c13Sig(issuer, embedded.RawTBSCertificate), "and must itself be signed by the issuer")
+			vr.Assert(c13Sig(issuer, embedded.RawTBSCertificate, embedded.Signature), "and must itself be signed by the issuer")
 		}
 	} else if withIssuer {
-		vr.Assert(c13Sig(issuer, tbs), "without an embedded certificate the issuer must have signed the response")
+		vr.Assert(c13Sig(issuer, tbs, wantSig), "without an embedded certificate the issuer must have signed the response")
 	}
 	vr.Cover("accepted")
 }
